@@ -36,15 +36,18 @@ CFGS = {
     "t7": (2, 3, True, -2),
     "t8": (3, 3, False, 0),
     "t9": (5, 1, True, -2),
+    # mixed periodicity masks: (L, dim, periodic, M, open axes)
+    "q4": (4, 2, True, 0, (2,)),
+    "t10": (3, 3, True, 0, (1, 3)),
 }
-QUICK = ["q1", "q2", "q3", "t1"]
+QUICK = ["q1", "q2", "q3", "q4", "t1"]
 THOROUGH = list(CFGS)
 
 
-def _grid(dim, L, periodic):
+def _grid(dim, L, periodic, open_axes=()):
     from pde import UnitGrid
 
-    return UnitGrid([L] * dim, periodic=True) if periodic else None
+    return UnitGrid([L] * dim, periodic=[(a + 1) not in open_axes for a in range(dim)]) if periodic else None
 
 
 def _replay_chunk(args):
@@ -52,8 +55,8 @@ def _replay_chunk(args):
     core.setup_repo_import()
     from droplets import DiffuseDroplet, Emulsion, SphericalDroplet
 
-    L, dim, periodic, M = params
-    grid = _grid(dim, L, periodic)
+    L, dim, periodic, M, open_axes = params
+    grid = _grid(dim, L, periodic, open_axes)
     bad = []
     nontriv = 0
     for idx, it in items:
@@ -359,7 +362,8 @@ def run(out: core.Outcome) -> None:
     )
     deviations = 0
     for name in QUICK if out.tier == "quick" else THOROUGH:
-        L, dim, periodic, M = CFGS[name]
+        L, dim, periodic, M = CFGS[name][:4]
+        open_axes = CFGS[name][4] if len(CFGS[name]) > 4 else ()
         r = core.tlc("MC_Overlap", f"MC_Overlap_{name}.cfg", timeout=3000)
         if r.violated:
             out.violation({"tlc_config": name, "violated": r.violated, "tlc_tail": r.stdout[-3000:]})
@@ -368,7 +372,7 @@ def run(out: core.Outcome) -> None:
         out.add_tlc(name, r)
         items = list(enumerate(r.printed))
         size = max(1, len(items) // (core.NCPU * 4))
-        chunks = [(items[i : i + size], (L, dim, periodic, M)) for i in range(0, len(items), size)]
+        chunks = [(items[i : i + size], (L, dim, periodic, M, open_axes)) for i in range(0, len(items), size)]
         with mp.get_context("fork").Pool(core.NCPU) as pool:
             results = pool.map(_replay_chunk, chunks)
         bad = []
@@ -389,11 +393,11 @@ def run(out: core.Outcome) -> None:
             if "survivors-differ" in b["fails"] and b["got"] is not None:
                 drops = [(d["p"], d["r"]) for d in b["em"]]
 
-                def d2(a, c, _L=L, _per=periodic):
+                def d2(a, c, _L=L, _per=periodic, _open=open_axes):
                     s = 0
-                    for x, y in zip(a[0], c[0]):
+                    for ax, (x, y) in enumerate(zip(a[0], c[0]), 1):
                         d = abs(x - y)
-                        if _per:
+                        if _per and ax not in _open:
                             d = min(d, _L - d)
                         s += d * d
                     return Fraction(s)
